@@ -1866,11 +1866,13 @@ def worker(args):
     texts = [m[1] for m in made]
     asm, htm, exc = run_tools(texts, bb, base, case, wd, 'f%d' % fi)
     excs = [exc] * n
+    where = list(range(n))          # the entry each text was expanded in
     if exc:
-        # one text broke the whole run: find it by running every text on its own
+        # one text broke the whole run: find it by running every text on its own (it then sits in entry 0)
         for i in range(n):
             a1, h1, e1 = run_tools([texts[i]], bb, base, case, wd, 'f%d_%d' % (fi, i))
             asm[i], htm[i], excs[i] = a1[0], h1[0], e1
+            where[i] = 0
     cases = []
     for i, (tree, text, used, notes, outs) in enumerate(made):
         locs = []
@@ -1879,9 +1881,9 @@ def worker(args):
             a, h = asm[i][k], htm[i][k]
             if (a is None or h is None) and not e:
                 e = 'expansion not found at %s (asm %s, html %s)' % (pname, a is not None, h is not None)
-            locs.append({'pc': entry_address(i) + off, 'asm': codes(a or ''), 'html': codes(h or '')})
+            locs.append({'pc': entry_address(where[i]) + off, 'asm': codes(a or ''), 'html': codes(h or '')})
         cases.append({'key': 'f%d.%d' % (fi, i), 'term': strip_private(tree), 'base': base, 'case': case, 'bo': BO, 'bb': bb,
-                      'ea': entry_address(i), 'locs': locs, 'exc': e[:600], 'text': text,
+                      'ea': entry_address(where[i]), 'locs': locs, 'exc': e[:600], 'text': text,
                       'tags': sorted(tags(tree)), 'used': sorted(used), 'notes': sorted(notes), 'shadow': outs})
     return cases
 
